@@ -38,9 +38,10 @@ const (
 	ASetPool
 	AClose
 	ARebuild // replace the file at the same path by an index of other content (only while no handle is open on it)
+	AAppear  // a file that was MISSING so far is written now (handles that failed to open it may exist)
 )
 
-var actName = []string{"open", "query", "prepare+query", "burst", "setpool", "close", "rebuild"}
+var actName = []string{"open", "query", "prepare+query", "burst", "setpool", "close", "rebuild", "appear"}
 
 // Broken file kinds.
 const (
@@ -95,6 +96,8 @@ func (c *Case) Summary() string {
 			fmt.Fprintf(&b, " setpool(h%d,open=%d,idle=%d)", a.Slot, a.MaxOpen, a.MaxIdle)
 		case ARebuild:
 			fmt.Fprintf(&b, " rebuild(file%d)", a.File)
+		case AAppear:
+			fmt.Fprintf(&b, " the-missing-file%d-is-written-now", a.File)
 		default:
 			fmt.Fprintf(&b, " %s(h%d,q%d)", actName[a.Kind], a.Slot, a.Q)
 		}
@@ -114,6 +117,8 @@ type handle struct {
 	file int
 	opt  int
 	via  int
+	// early: opened while its file did not exist yet
+	early bool
 }
 
 type hangError struct{ msg string }
@@ -144,6 +149,7 @@ func released(path string) error {
 
 type facts struct {
 	rebuilt          bool
+	appeared         bool
 	reopenAfterClose bool
 	burstFresh       bool
 	twoOptsAtOnce    bool
@@ -184,6 +190,7 @@ func oracle(c *Case) (facts, error) {
 	useAlt := make([]bool, len(c.Files))
 	handles := map[int]*handle{}
 	openCount := make([]int, len(c.Files))
+	appeared := make([]bool, len(c.Files))
 	closedOnce := map[string]bool{} // dsn that was opened and fully closed before
 	fresh := map[int]bool{}         // slot not yet used for a query
 	dsnOf := func(file, opt, via int) string {
@@ -245,10 +252,18 @@ func oracle(c *Case) (facts, error) {
 		}
 		switch c.broken(h.file) {
 		case BMissing:
-			if err == nil {
-				return fmt.Errorf("query %+q on a handle whose file does not exist returned rows", text)
+			if !appeared[h.file] {
+				if err == nil {
+					return fmt.Errorf("query %+q on a handle whose file does not exist returned rows", text)
+				}
+				return nil
 			}
-			return nil
+			// the file exists by now.  A handle opened before that may keep
+			// failing (no claim), but must not return wrong rows; a handle opened
+			// afterwards is an ordinary handle on an ordinary file
+			if h.early && err != nil {
+				return nil
+			}
 		case BGarbageBitmap:
 			if strings.Contains(optStrings[h.opt], "preload") && err == nil && len(datas[h.file].Columns()) > 0 {
 				return fmt.Errorf("query %+q on a preloading handle over a file with an undecodable bitmap returned rows", text)
@@ -285,7 +300,7 @@ func oracle(c *Case) (facts, error) {
 		if !stillOpen {
 			closedOnce[dsnOf(h.file, h.opt, h.via)] = true
 		}
-		if openCount[h.file] == 0 && c.broken(h.file) != BMissing {
+		if openCount[h.file] == 0 && (c.broken(h.file) != BMissing || appeared[h.file]) {
 			if err := released(paths[h.file]); err != nil {
 				return fmt.Errorf("after Close(h%d): %v", slot, err)
 			}
@@ -312,7 +327,7 @@ func oracle(c *Case) (facts, error) {
 			if err != nil {
 				return f, fmt.Errorf("%s: sql.Open(%q): %v", label, dsn, err)
 			}
-			handles[a.Slot] = &handle{db: db, file: a.File, opt: a.Opt, via: a.Via}
+			handles[a.Slot] = &handle{db: db, file: a.File, opt: a.Opt, via: a.Via, early: c.broken(a.File) == BMissing && !appeared[a.File]}
 			openCount[a.File]++
 			fresh[a.Slot] = true
 		case AQuery, APrepQuery:
@@ -362,6 +377,15 @@ func oracle(c *Case) (facts, error) {
 				h.db.SetMaxOpenConns(a.MaxOpen)
 				h.db.SetMaxIdleConns(a.MaxIdle)
 			}
+		case AAppear:
+			if a.File >= len(c.Files) || c.broken(a.File) != BMissing || appeared[a.File] {
+				continue
+			}
+			if _, err := fix.BuildAt(paths[a.File], c.Files[a.File].Rows(), fix.WMemFile); err != nil {
+				return f, fmt.Errorf("INFRA: appear: %v", err)
+			}
+			appeared[a.File] = true
+			f.appeared = true
 		case ARebuild:
 			if a.File >= len(c.Files) || openCount[a.File] != 0 || c.broken(a.File) != BOK || a.File >= len(c.Alt) {
 				continue
@@ -415,6 +439,9 @@ func run(t interface{ Fatalf(string, ...any) }, c *Case) {
 	}
 	if f.rebuilt {
 		cl = append(cl, "file-rebuilt-at-same-path")
+	}
+	if f.appeared {
+		cl = append(cl, "missing-file-written-later")
 	}
 	for i := range c.Files {
 		if c.broken(i) != BOK {
@@ -488,6 +515,11 @@ func drawCase(t *rapid.T, maxActs int) *Case {
 	n := rapid.IntRange(2, maxActs).Draw(t, "nacts")
 	for i := 0; i < n; i++ {
 		k := rapid.IntRange(0, 9).Draw(t, "act")
+		for fi, b := range c.Broken {
+			if b == BMissing && i > 1 && rapid.IntRange(0, 7).Draw(t, "appear?") == 0 {
+				c.Acts = append(c.Acts, Act{Kind: AAppear, File: fi}) // a second one for the same file is ignored
+			}
+		}
 		if len(open) == 0 || (k < 3 && len(open) < 4) {
 			a := Act{Kind: AOpen, File: rapid.IntRange(0, nf-1).Draw(t, "file"), Opt: rapid.IntRange(0, len(optStrings)-1).Draw(t, "opt")}
 			if len(closedDSN) > 0 && rapid.Bool().Draw(t, "reopen") {
@@ -580,6 +612,39 @@ func drawReincarnation(t *rapid.T) *Case {
 			c.Acts = append(c.Acts, Act{Kind: ARebuild, File: file})
 		}
 	}
+	return c
+}
+
+// drawLateFile: a data source is opened and used before its file exists
+// (every use fails), then the file is written, then the old handle is used
+// again and a new handle on the same data source is opened: the new one must
+// answer correctly, whatever the driver remembers about the earlier failures.
+func drawLateFile(t *rapid.T) *Case {
+	c := drawCase(t, 2)
+	c.Acts = nil
+	file := rapid.IntRange(0, len(c.Files)-1).Draw(t, "lfile")
+	for len(c.Broken) <= file {
+		c.Broken = append(c.Broken, BOK)
+	}
+	c.Broken[file] = BMissing
+	opt := rapid.IntRange(0, len(optStrings)-1).Draw(t, "lopt")
+	c.Acts = append(c.Acts, Act{Kind: AOpen, Slot: 0, File: file, Opt: opt})
+	for q := 0; q < rapid.IntRange(1, 3).Draw(t, "lq"); q++ {
+		c.Acts = append(c.Acts, Act{Kind: AQuery + q%2, Slot: 0, Q: q})
+	}
+	if rapid.Bool().Draw(t, "lburst") {
+		c.Acts = append(c.Acts, Act{Kind: ABurst, Slot: 0, N: 3, Q: 1})
+	}
+	c.Acts = append(c.Acts, Act{Kind: AAppear, File: file})
+	c.Acts = append(c.Acts, Act{Kind: AQuery, Slot: 0, Q: 2})
+	if rapid.Bool().Draw(t, "lcloseold") {
+		c.Acts = append(c.Acts, Act{Kind: AClose, Slot: 0})
+	}
+	c.Acts = append(c.Acts, Act{Kind: AOpen, Slot: 1, File: file, Opt: opt})
+	for q := 0; q < 5; q++ {
+		c.Acts = append(c.Acts, Act{Kind: AQuery + q%2, Slot: 1, Q: q})
+	}
+	c.Acts = append(c.Acts, Act{Kind: AClose, Slot: 1})
 	return c
 }
 
@@ -750,6 +815,7 @@ func replay(cf *evid.CaseFile) error {
 func TestQuick(t *testing.T) {
 	fix.Pinned(t, prop, replay)
 	fix.Check(t, "history", 150, func(rt *rapid.T) { run(rt, drawCase(rt, 15)) })
+	fix.Check(t, "late-file", 24, func(rt *rapid.T) { run(rt, drawLateFile(rt)) })
 	fix.Check(t, "reincarnation", 40, func(rt *rapid.T) { run(rt, drawReincarnation(rt)) })
 	fix.Check(t, "churn", 12, func(rt *rapid.T) { runChurn(rt, drawChurn(rt)) })
 }
@@ -759,6 +825,7 @@ func TestThorough(t *testing.T) {
 		fix.Pinned(t, prop, replay)
 	}
 	fix.Check(t, "history", 1500, func(rt *rapid.T) { run(rt, drawCase(rt, 40)) })
+	fix.Check(t, "late-file", 200, func(rt *rapid.T) { run(rt, drawLateFile(rt)) })
 	fix.Check(t, "reincarnation", 300, func(rt *rapid.T) { run(rt, drawReincarnation(rt)) })
 	fix.Check(t, "churn", 80, func(rt *rapid.T) { runChurn(rt, drawChurn(rt)) })
 }
